@@ -247,6 +247,12 @@ func (e *EvalBinaryNode) EvalInt(scope *Scope, executionState ExecutionState) (i
 }
 
 func (e *EvalBinaryNode) eval(scope *Scope, executionState ExecutionState) (resultContainer, *ErrSide) {
+	if e.leftEvaluator.IsDynamic() || e.rightEvaluator.IsDynamic() {
+		// Take the types of the operands from this scope, not from the points seen before:
+		// finding out by a failed type guard evaluates a stateful operand twice,
+		// and a nested node reports the failure in a way that is not retried.
+		return e.evaluateDynamicNode(scope, executionState, e.leftEvaluator, e.rightEvaluator)
+	}
 	return e.evalRetry(scope, executionState, 0)
 }
 
@@ -326,7 +332,7 @@ func (e *EvalBinaryNode) evaluateDynamicNode(scope *Scope, executionState Execut
 
 	e.evaluationFn = e.lookupEvaluationFn()
 
-	return e.eval(scope, executionState)
+	return e.evalRetry(scope, executionState, 0)
 }
 
 // Return an understandable error which is most specific to the issue.
